@@ -1,5 +1,5 @@
 """Rule registry: name -> callable(ctx, prop) -> RuleResult | [RuleResult]."""
-from . import trav
+from . import trav, exh, backend
 
 
 def _trav_scoped(classes, name):
@@ -22,4 +22,8 @@ RULES = {
     "TRAV@C15": _trav_scoped(TRAV_C15, "TRAV"),
     "TRAVBASE": trav.rule_travbase,
     "BYPASS": trav.rule_bypass,
+    "EXH": exh.rule_exh,
+    "BACKPIPE": backend.rule_backpipe,
+    "PAREMIT": backend.rule_paremit,
+    "PARCHECK": backend.rule_parcheck,
 }
